@@ -202,6 +202,10 @@ Definition is_empty (v : val) : bool :=
   end.
 
 (* ------------------------------------------------------------------------------------------ zero values *)
+(* printed payload of the zero value of a leaf coder: api.DurationConfig is carried as nanoseconds, datasize.ByteSize as its text *)
+Definition opaque_zero (n : string) : string := if String.eqb n "datasize.ByteSize" then "0B" else "0".
+Definition known_coders : list string := ["api.DurationConfig"; "datasize.ByteSize"].
+
 Fixpoint zero_val (T : table) (fuel : nat) (t : ty) : val :=
   match fuel with
   | O => VNil
@@ -215,7 +219,7 @@ Fixpoint zero_val (T : table) (fuel : nat) (t : ty) : val :=
                   | Some sd => VStruct (map (fun fd => zero_val T f (f_ty fd)) (s_fields sd))
                   | None => VNil
                   end
-    | TOpaque n => if String.prefix "iface:" n then VNil else VOpaque n "0"   (* a nil interface / the zero of a leaf coder *)
+    | TOpaque n => if String.prefix "iface:" n then VNil else VOpaque n (opaque_zero n)   (* a nil interface / the zero of a leaf coder *)
     | _ => VNil
     end
   end.
